@@ -111,11 +111,12 @@ impl Attribute<'_> for EvenPort {
     const TYPE: u16 = 0x0018;
 
     fn decode(_: Self::Context, msg: &mut ParsedMessage, attr: ParsedAttr) -> Result<Self, Error> {
-        Ok(Self(attr.get_value(msg.buffer()).read_u8()? == 1))
+        // the R flag is the most significant bit, the other 7 bits are reserved
+        Ok(Self(attr.get_value(msg.buffer()).read_u8()? & 0x80 != 0))
     }
 
     fn encode(&self, _: Self::Context, builder: &mut MessageBuilder) -> Result<(), Error> {
-        builder.buffer().put_u8(if self.0 { 1 } else { 0 });
+        builder.buffer().put_u8(if self.0 { 0x80 } else { 0 });
 
         Ok(())
     }
